@@ -123,8 +123,13 @@ def replay(scs, workdir, flavor='asan', shards=16, harness='vdrive', batch=200, 
     e = dict(os.environ)
     e['ASAN_OPTIONS'] = 'detect_leaks=0:abort_on_error=0:halt_on_error=1:allocator_may_return_null=1'
     e['UBSAN_OPTIONS'] = 'print_stacktrace=1:halt_on_error=1'
-    e['LD_LIBRARY_PATH'] = os.path.join(b, 'blocc')
-    e['BLOC_MODULES'] = os.path.join(b, 'modules')
+    mods = os.path.join(b, 'modules')
+    e['LD_LIBRARY_PATH'] = ':'.join([os.path.join(b, 'blocc'), os.path.join(b, 'verif')] +
+                                    [os.path.join(mods, d) for d in sorted(os.listdir(mods)) if os.path.isdir(os.path.join(mods, d))])
+    e['BLOC_MODULES'] = mods
+    inc = os.path.join(workdir, 'inc.bloc')
+    open(inc, 'w').write('INCLUDED = 1;\n')
+    e['VDRIVE_INC'] = inc
     if env:
         e.update(env)
     for k in range(shards):
